@@ -19,6 +19,7 @@ streams, byte-identical snapshots of whole runs.
 from .. import cfg as C
 from ..absint import G, I, TOP, Interp, join
 from ..astdb import AnalysisBroken, where
+from . import c13_seed
 
 LEVEL = "other"
 W = 48
@@ -247,4 +248,7 @@ def run(chk, prog):
                                 "only -log(u) is guaranteed positive" % C.pretty(arg), function=d["full"],
                                 construct="optical depth draw")
     chk.floor("X7", n7, 3)
-    chk.floor("X", len(chk.obligations), 25)
+    # ---- X8: every stream is seeded by a function of the input --------------------------------------
+    n8 = c13_seed.rule_X8(chk, prog)
+    chk.floor("X8", n8, 15)
+    chk.floor("X", len(chk.obligations), 40)
